@@ -117,6 +117,14 @@ structure St where
   hist : List Wire := []       -- ghost: what the application has produced so far (SendMsg / CloseSend calls)
 deriving Repr
 
+/-- the clientStream of a new RPC (before `newClientStream`'s first op): `disableRetry` also means
+    the stream carries no throttler. -/
+def St.init (clientStreams serverStreams disableRetry : Bool) (pol : Option Policy) (maxBuf : Int)
+    (thr : Option Throttler) (script : List Beh) : St :=
+  { clientStreams, serverStreams, disableRetry, pol, maxBuf, script,
+    cs := { finished := false, committed := false, firstAttempt := true, numRetries := 0,
+            sincePushback := 0, throttler := if disableRetry then none else thr } }
+
 /-- result of one client operation as the application sees it -/
 inductive Res
   | ok
@@ -438,25 +446,20 @@ deriving Repr, DecidableEq
 /-- `clientStreamWrapper.SendMsg` (defaultStreamInterceptor): for a non-client-streaming RPC io.EOF
     becomes nil, and a successful send is followed by CloseSend (a no-op: sentLast is already set). -/
 def St.opSendW (fuel : Nat) (st : St) (size : Nat) : St × Res × List Ev × List Delay :=
-  let (st1, res, ev, dl) := st.opSend fuel size
-  if st.clientStreams then (st1, res, ev, dl)
-  else match res with
-    | .eof => (st1, .ok, ev, dl)
-    | r => (st1, r, ev, dl)
+  let r := st.opSend fuel size
+  if st.clientStreams then r
+  else (r.1, (match r.2.1 with | .eof => .ok | x => x), r.2.2.1, r.2.2.2)
 
 /-- `clientStreamWrapper.RecvMsg`: for a non-server-streaming RPC a received message is followed by a
     second RecvMsg that must see the end of the stream (io.EOF → nil). -/
 def St.opRecvW (fuel : Nat) (st : St) : St × Res × List Ev × List Delay :=
-  let (st1, res, ev, dl) := st.opRecv fuel
-  if st.serverStreams then (st1, res, ev, dl)
-  else match res with
+  let r := st.opRecv fuel
+  if st.serverStreams then r
+  else match r.2.1 with
     | .msg n =>
-      let (st2, res2, ev2, dl2) := st1.opRecv fuel
-      match res2 with
-      | .eof => (st2, .msg n, ev ++ ev2, dl ++ dl2)
-      | .msg _ => (st2, .err 13, ev ++ ev2, dl ++ dl2)
-      | r => (st2, r, ev ++ ev2, dl ++ dl2)
-    | r => (st1, r, ev, dl)
+      let r2 := r.1.opRecv fuel
+      (r2.1, (match r2.2.1 with | .eof => .msg n | .msg _ => .err 13 | x => x), r.2.2.1 ++ r2.2.2.1, r.2.2.2 ++ r2.2.2.2)
+    | _ => r
 
 def St.step (fuel : Nat) (st : St) : AppOp → St × Res × List Ev × List Delay
   | .new => st.opNew
@@ -486,6 +489,12 @@ def wireOf (clientStreams : Bool) : List ROp → List Wire
 /-- the buffer of an RPC that was started: the stream-creating op first, and only there. -/
 def startsOnce : List ROp → Bool
   | .start :: r => !r.contains .start
+  | _ => false
+
+/-- the operation delivered a response header or a response message to the application. -/
+def Res.delivers : Res → Bool
+  | .msg _ => true
+  | .hdr => true
   | _ => false
 
 /-- the fuel that is always enough: one transparent retry plus the remaining policy attempts. -/
